@@ -32,9 +32,10 @@ func init() {
 		Rule: "seed-determined (client config, server config) pairs over version ranges TLS1.0-1.3 x ordered suite subsets of the implemented table (+DHE leg with ForceSuites) x 1-2 server keys (RSA-2048, ECDSA P-256/384/521, Ed25519) x curve lists x ALPN lists x PreferServerCipherSuites x tickets on/off, " +
 			"peers zcrypto<->zcrypto, zcrypto->Go crypto/tls, Go->zcrypto; second connection for resumption; man-in-the-middle version rewrite leg. " +
 			"non-trivial = a connection whose handshake completed on both sides and was checked against the negotiation model; distinct by hash of the canonical pair description + connection index",
-		MinNontrivial: 1900,
-		Shards:        16,
-		Env:           goDebug,
+		MinNontrivial:         1900,
+		MinNontrivialThorough: 60000,
+		Shards:                16,
+		Env:                   goDebug,
 		Assumptions: []string{
 			"compatibility predicate and preference rule written from the Config field documentation (MinVersion/MaxVersion, CipherSuites, PreferServerCipherSuites, CurvePreferences, NextProtos, Certificates, SessionTicketsDisabled/ClientSessionCache) and RFC 8446 4.1.3",
 			"what the client offers is taken from the tapped ClientHello (independent parser); suite metadata (key exchange family, TLS1.2-only) from the hook table cross-checked with the public CipherSuites() list",
